@@ -82,7 +82,7 @@ func (opts *CompileOptions) Compile(source string) (string, error) {
 		return "", fmt.Errorf("missing tabular queries")
 	}
 
-	subqueries, err := splitQueries(nil, source, expr)
+	subqueries, err := splitQueries(nil, source, expr, asNames(nil, expr))
 	if err != nil {
 		return "", err
 	}
@@ -128,14 +128,17 @@ type subquery struct {
 
 // splitQueries appends queries to dst that represent the given tabular expression.
 // The last element of the returned slice will be the query that represents the full expression.
-func splitQueries(dst []*subquery, source string, expr *parser.TabularExpr) ([]*subquery, error) {
+//
+// reserved holds the names given to subqueries by "as" operators anywhere in the statement:
+// generated subquery names steer clear of them.
+func splitQueries(dst []*subquery, source string, expr *parser.TabularExpr, reserved map[string]struct{}) ([]*subquery, error) {
 	dstStart := len(dst)
 	var lastSubquery *subquery
 	for i := 0; i < len(expr.Operators); i++ {
 		switch op := expr.Operators[i].(type) {
 		case *parser.AsOperator:
 			var err error
-			lastSubquery, err = chainSubquery(dst, dstStart, expr.Source)
+			lastSubquery, err = chainSubquery(dst, dstStart, expr.Source, reserved)
 			if err != nil {
 				return nil, err
 			}
@@ -147,7 +150,7 @@ func splitQueries(dst []*subquery, source string, expr *parser.TabularExpr) ([]*
 		case *parser.SortOperator:
 			if lastSubquery == nil || !canAttachSort(lastSubquery.op) || lastSubquery.sort != nil || lastSubquery.take != nil {
 				var err error
-				lastSubquery, err = chainSubquery(dst, dstStart, expr.Source)
+				lastSubquery, err = chainSubquery(dst, dstStart, expr.Source, reserved)
 				if err != nil {
 					return nil, err
 				}
@@ -157,7 +160,7 @@ func splitQueries(dst []*subquery, source string, expr *parser.TabularExpr) ([]*
 		case *parser.TakeOperator:
 			if lastSubquery == nil || !canAttachSort(lastSubquery.op) || lastSubquery.take != nil {
 				var err error
-				lastSubquery, err = chainSubquery(dst, dstStart, expr.Source)
+				lastSubquery, err = chainSubquery(dst, dstStart, expr.Source, reserved)
 				if err != nil {
 					return nil, err
 				}
@@ -167,7 +170,7 @@ func splitQueries(dst []*subquery, source string, expr *parser.TabularExpr) ([]*
 		case *parser.TopOperator:
 			if lastSubquery == nil || !canAttachSort(lastSubquery.op) || lastSubquery.sort != nil || lastSubquery.take != nil {
 				var err error
-				lastSubquery, err = chainSubquery(dst, dstStart, expr.Source)
+				lastSubquery, err = chainSubquery(dst, dstStart, expr.Source, reserved)
 				if err != nil {
 					return nil, err
 				}
@@ -187,7 +190,7 @@ func splitQueries(dst []*subquery, source string, expr *parser.TabularExpr) ([]*
 			leftSubquery := len(dst) - 1
 
 			var err error
-			dst, err = splitQueries(dst, source, op.Right)
+			dst, err = splitQueries(dst, source, op.Right, reserved)
 			if err != nil {
 				return nil, err
 			}
@@ -238,13 +241,13 @@ func splitQueries(dst []*subquery, source string, expr *parser.TabularExpr) ([]*
 			}
 
 			lastSubquery = &subquery{
-				name:      subqueryName(len(dst)),
+				name:      subqueryName(len(dst), reserved),
 				sourceSQL: joinSource.String(),
 			}
 			dst = append(dst, lastSubquery)
 		default:
 			var err error
-			lastSubquery, err = chainSubquery(dst, dstStart, expr.Source)
+			lastSubquery, err = chainSubquery(dst, dstStart, expr.Source, reserved)
 			if err != nil {
 				return nil, err
 			}
@@ -256,7 +259,7 @@ func splitQueries(dst []*subquery, source string, expr *parser.TabularExpr) ([]*
 	if len(dst) == dstStart {
 		// Ensure that we add at least one subquery.
 		var err error
-		lastSubquery, err = chainSubquery(dst, dstStart, expr.Source)
+		lastSubquery, err = chainSubquery(dst, dstStart, expr.Source, reserved)
 		if err != nil {
 			return nil, err
 		}
@@ -269,9 +272,9 @@ func splitQueries(dst []*subquery, source string, expr *parser.TabularExpr) ([]*
 // chainSubquery returns a new subquery
 // that either reads from the previous subquery
 // or from the data source if there is no previous subquery.
-func chainSubquery(dst []*subquery, dstStart int, src parser.TabularDataSource) (*subquery, error) {
+func chainSubquery(dst []*subquery, dstStart int, src parser.TabularDataSource, reserved map[string]struct{}) (*subquery, error) {
 	sub := &subquery{
-		name: subqueryName(len(dst)),
+		name: subqueryName(len(dst), reserved),
 	}
 	sb := new(strings.Builder)
 	if len(dst) > dstStart {
@@ -285,8 +288,33 @@ func chainSubquery(dst []*subquery, dstStart int, src parser.TabularDataSource) 
 	return sub, nil
 }
 
-func subqueryName(i int) string {
-	return fmt.Sprintf("__subquery%d", i)
+// subqueryName returns the generated name of the i'th subquery,
+// altered if necessary to differ from every name in reserved.
+func subqueryName(i int, reserved map[string]struct{}) string {
+	name := fmt.Sprintf("__subquery%d", i)
+	for {
+		if _, taken := reserved[name]; !taken {
+			return name
+		}
+		name += "_"
+	}
+}
+
+// asNames adds the names introduced by "as" operators in expr
+// (including those inside join operands) to names.
+func asNames(names map[string]struct{}, expr *parser.TabularExpr) map[string]struct{} {
+	for _, op := range expr.Operators {
+		switch op := op.(type) {
+		case *parser.AsOperator:
+			if names == nil {
+				names = make(map[string]struct{})
+			}
+			names[op.Name.Name] = struct{}{}
+		case *parser.JoinOperator:
+			names = asNames(names, op.Right)
+		}
+	}
+	return names
 }
 
 // canAttachSort reports whether the given operator's subquery can have a sort clause attached.
